@@ -223,9 +223,9 @@ fn main() {
     println!("{}", serde_json::to_string(&summary).unwrap());
 }
 
-const MK_MUTS: usize = 10;
+const MK_MUTS: usize = 11;
 const MK_MUT_NAMES: [&str; MK_MUTS] = ["none", "leaf_foreign", "leaf_other_committed", "pos_other", "pos_out_of_range", "swap_leaves",
-    "item_flip", "item_drop", "size_change", "claim_internal_node"];
+    "item_flip", "item_drop", "size_change", "claim_internal_node", "shift_bytes_leaf_sibling"];
 
 fn mutate_mk(p: &mut Value, m: usize, pos_of: &BTreeMap<u64, Value>, r: &mut ChaCha20Rng) -> bool {
     let nl = p["inner_leaves"].as_array().unwrap().len();
@@ -263,6 +263,31 @@ fn mutate_mk(p: &mut Value, m: usize, pos_of: &BTreeMap<u64, Value>, r: &mut Cha
         }
         "item_drop" => { p["inner_proof_items"].as_array_mut().unwrap().pop().is_some() }
         "size_change" => { let s = p["inner_proof_size"].as_u64().unwrap(); p["inner_proof_size"] = json!(s + 1 + below(r, 3)); true }
+        "shift_bytes_leaf_sibling" => {
+            // leaves are raw byte strings and a parent is H(left || right) without length prefixes: move the
+            // boundary between a leaf and its sibling (a proof item) by one byte
+            if nl != 1 || p["inner_proof_items"].as_array().unwrap().is_empty() {
+                return false;
+            }
+            let pos = p["inner_leaves"][0][0].as_u64().unwrap();
+            if pos > 1 || pos_of.len() < 2 {
+                return false;
+            }
+            let mut leaf: Vec<u64> = p["inner_leaves"][0][1]["hash"].as_array().unwrap().iter().map(|b| b.as_u64().unwrap()).collect();
+            let mut sib: Vec<u64> = p["inner_proof_items"][0]["hash"].as_array().unwrap().iter().map(|b| b.as_u64().unwrap()).collect();
+            if pos == 0 {
+                // H(leaf || sibling): the last byte of the leaf becomes the first byte of the sibling
+                let Some(b) = leaf.pop() else { return false };
+                sib.insert(0, b);
+            } else {
+                // H(sibling || leaf): the last byte of the sibling becomes the first byte of the leaf
+                let Some(b) = sib.pop() else { return false };
+                leaf.insert(0, b);
+            }
+            p["inner_leaves"][0][1]["hash"] = json!(leaf);
+            p["inner_proof_items"][0]["hash"] = json!(sib);
+            true
+        }
         "claim_internal_node" => {
             // present the parent of the two first leaves (an internal node, MMR position 2) as a "leaf"
             if pos_of.len() < 2 { return false }
